@@ -11,7 +11,7 @@
    CORRESPONDENCE (verdict 2) = the model of Model/VErr.v, run on the same construction and the same
    operations, predicts the observations (including nil-ness of maps and of the result, key sets with
    empty message lists, the exact line format of Error()). *)
-From Coq Require Import String Ascii List Bool Arith.
+From Coq Require Import String Ascii List Bool Arith ZArith.
 From TC.Model Require Export VErr.
 From TC.Run Require Import RunLib.
 Import ListNotations.
@@ -92,6 +92,27 @@ Fixpoint contains (m s : string) : bool :=
 (* ---------- monitor ---------- *)
 Definition top (w : bool) (t : vt) : option amap := match t with Node e wn _ => sel w e wn end.
 
+(* strings the harness cannot write as a Coq literal (control characters, NUL, quotes, bytes >= 127, invalid
+   UTF-8) arrive as their list of byte codes *)
+Definition sc (l : list Z) : string :=
+  fold_right (fun z acc => String (ascii_of_nat (Z.to_nat z)) acc) EmptyString l.
+
+Definition is_nl (c : ascii) : bool := Ascii.eqb c (ascii_of_nat 10).
+Fixpoint nl_count (s : string) : nat :=
+  match s with EmptyString => 0 | String c r => (if is_nl c then 1 else 0) + nl_count r end.
+(* number of (possibly overlapping) occurrences of m in s *)
+Fixpoint occ (m s : string) : nat :=
+  (if String.prefix m s then 1 else 0) + match s with EmptyString => 0 | String _ r => occ m r end.
+Fixpoint sdrop (n : nat) (s : string) : string :=
+  match n, s with 0, _ => s | S n', String _ r => sdrop n' r | _, EmptyString => EmptyString end.
+(* the pieces of s that end in a newline, without it (a trailing piece without newline is kept) *)
+Fixpoint split_lines (acc s : string) : list string :=
+  match s with
+  | EmptyString => match acc with EmptyString => [] | _ => [acc] end
+  | String c r => if is_nl c then acc :: split_lines EmptyString r
+                  else split_lines (acc +++ String c EmptyString) r
+  end.
+
 (* Error() renders each message exactly once (format independent part): as many lines as messages, and
    every message text occurs in at least as many lines as it has occurrences *)
 Definition lines_ok (snap : vt) (ls : list string) : bool :=
@@ -99,9 +120,27 @@ Definition lines_ok (snap : vt) (ls : list string) : bool :=
   Nat.eqb (length ls) (length ms) &&
   forallb (fun m => length (filter (String.eqb m) ms) <=? length (filter (contains m) ls)) ms.
 
+(* The harness reports Error() as the WHOLE string, cut at its newline bytes only for transport ([VLines pieces],
+   s = pieces joined by newlines - lossless, and not a statement about lines: messages may contain newlines). *)
+Definition join_nl (ps : list string) : string := String.concat nl ps.
+
+(* The monitor for Error() on the whole string s.  Format independent part of "each message is
+   rendered exactly once", valid for arbitrary message texts (newlines, format verbs, any bytes):
+   the string has one newline per message beyond those inside the messages; every message text occurs in it at
+   least as often as it was supplied; and, when no message contains a newline, [lines_ok] on its lines. *)
+Definition error_ok (snap : vt) (s : string) : bool :=
+  let ms := map snd (pairs false snap) ++ map snd (pairs true snap) in
+  if existsb (fun m => negb (Nat.eqb (nl_count m) 0)) ms then
+    Nat.eqb (nl_count s) (length ms + fold_right (fun m acc => nl_count m + acc) 0 ms) &&
+    forallb (fun m => length (filter (String.eqb m) ms) <=? occ m s) ms
+  else
+    (* no newline inside a message: the pieces between newlines are the lines; [lines_ok] contains both
+       conditions above (one line per message, every message in enough lines) *)
+    lines_ok snap (split_lines EmptyString s).
+
 Definition read_ok (snap : vt) (op : read_op) (v : read_val) : bool :=
   match op, v with
-  | RError, VLines ls => lines_ok snap ls
+  | RError, VLines ps => error_ok snap (join_nl ps)
   | RFlatE, VMap m => pairs_eq (entries (omap m)) (pairs false snap)
   | RFlatW, VMap m => pairs_eq (entries (omap m)) (pairs true snap)
   | RTopE, VMap m => oamap_eqb m (top false snap)
@@ -208,9 +247,36 @@ Definition monitor (c : case) : bool :=
 (* ---------- correspondence with the model ---------- *)
 Definition keys_eq (a b : amap) : bool := strs_eq (map fst a) (map fst b).
 
+Fixpoint sdedup (l : list string) : list string :=
+  match l with [] => [] | x :: r => x :: filter (fun y => negb (String.eqb x y)) (sdedup r) end.
+
+(* s is the concatenation of the strings ls in some order (backtracking over the distinct candidates).
+   vm_compute is call-by-value: [&&], [||] and [existsb] would evaluate the recursive call even when the
+   candidate is not a prefix, which is exponential - hence the explicit [if]s. *)
+Fixpoint seg (fuel : nat) (s : string) (ls : list string) : bool :=
+  match fuel with
+  | 0 => false
+  | S f =>
+      match ls with
+      | [] => String.eqb s EmptyString
+      | _ =>
+          (fix try (cands : list string) : bool :=
+             match cands with
+             | [] => false
+             | l :: r =>
+                 if String.prefix l s then
+                   match rm1 String.eqb l ls with
+                   | Some rest => if seg f (sdrop (String.length l) s) rest then true else try r
+                   | None => try r
+                   end
+                 else try r
+             end) (sdedup (filter (fun l => String.prefix l s) ls))
+      end
+  end.
+
 Definition val_agrees (model obs : read_val) : bool :=
   match model, obs with
-  | VLines a, VLines b => strs_eq a b
+  | VLines a, VLines ps => seg (S (length a)) (join_nl ps) a   (* exact format: the model's lines, in any order *)
   | VMap None, VMap None => true
   | VMap (Some a), VMap (Some b) => pairs_eq (entries a) (entries b) && keys_eq a b
   | _, _ => false
@@ -221,13 +287,6 @@ Fixpoint vals_agree (ms os : list read_val) : bool :=
   | [], [] => true
   | m :: r, o :: r' => val_agrees m o && vals_agree r r'
   | _, _ => false
-  end.
-
-(* the lines the harness reports have their trailing newline removed *)
-Definition strip_nl (v : read_val) : read_val :=
-  match v with
-  | VLines ls => VLines (map (fun l => substring 0 (String.length l - 1) l) ls)
-  | _ => v
   end.
 
 Definition vt_sim (a b : vt) : bool :=
@@ -241,7 +300,7 @@ Definition corr (c : case) : bool :=
       let '(t, h) := build b h0 in
       wf h t && vt_eqb (abs h t) snap0 &&
       match run_reads ops t h with
-      | Result (vals, h') => negb panicked && vals_agree (map strip_nl vals) obs && vt_eqb (abs h' t) snap1
+      | Result (vals, h') => negb panicked && vals_agree vals obs && vt_eqb (abs h' t) snap1
       | Panic => panicked
       end
   | CAdd h0 a1 a2 same s1 s2 panicked nilres r0 r1 ops obs =>
@@ -257,7 +316,7 @@ Definition corr (c : case) : bool :=
           | Some snap =>
               vt_sim (abs h3 r) snap &&
               match run_reads ops r h3 with
-              | Result (vals, _) => vals_agree (map strip_nl vals) obs
+              | Result (vals, _) => vals_agree vals obs
               | Panic => false
               end
           end
@@ -268,7 +327,7 @@ Definition corr (c : case) : bool :=
 Definition hres_agrees (m : hres) (x : hobs) : bool :=
   match m, x with
   | HSkip, OSkip => true
-  | HVal v, ORead _ _ v' => val_agrees (strip_nl v) v'
+  | HVal v, ORead _ _ v' => val_agrees v v'
   | HAbs None, OAdd _ _ nilres None => nilres
   | HAbs (Some a), OAdd _ _ nilres (Some r) => negb nilres && vt_sim a r
   | HAbs (Some a), OAddChild _ _ r => vt_sim a r
